@@ -272,7 +272,7 @@ fn stub_parse_f64(_s: &str) -> Result<f64, core::num::ParseFloatError> {
     Ok(x)
 }
 
-// @harness id=c20_json_number_5 props=C20,C06:thorough,C01:thorough tier=quick cap=1500
+// @harness id=c20_json_number_5 props=C20,C06,C01 tier=thorough cap=2400
 // @desc parse_json::Lexer::lex_number on every ASCII string of 5 bytes: the accepted prefix is exactly the longest RFC 8259 section 6 number token, malformed numbers (-, leading zeros incl. after a minus sign, missing fraction or exponent digits) are errors, and Ok(Some(x)) implies x is finite
 // @bound 5 arbitrary ASCII bytes; the decimal-to-double conversion (str::parse::<f64>) is stubbed by an arbitrary non-NaN double
 // @funcs parse_json::Lexer::lex_number, parse_json::Lexer::eat_digit_0_9, parse_json::Lexer::eat_digit_1_9
@@ -300,6 +300,41 @@ fn c20_json_number_5() {
         }
         Err(e) => {
             // malformed, or the (stubbed) conversion overflowed
+            kani::cover!(want.is_err(), "malformed number rejected");
+            kani::cover!(want.is_ok(), "overflow rejected");
+            assert!(want != Ok(0), "an error needs at least a number-like prefix");
+            core::mem::forget(e);
+        }
+    }
+}
+
+// @harness id=c20_json_number_4 props=C20,C06:thorough,C01:thorough tier=quick cap=1500
+// @desc as c20_json_number_5 on every ASCII string of 4 bytes (long enough for a sign, a leading zero, a fraction point or an exponent marker with its digit: -0.5, 1e+1, -01x are 4 bytes or fewer)
+// @bound 4 arbitrary ASCII bytes; the decimal-to-double conversion (str::parse::<f64>) is stubbed by an arbitrary non-NaN double
+// @funcs parse_json::Lexer::lex_number, parse_json::Lexer::eat_digit_0_9, parse_json::Lexer::eat_digit_1_9
+// @out correct rounding of str::parse::<f64> (Rust dec2flt, trusted)
+#[kani::proof]
+#[kani::unwind(7)]
+#[kani::stub(<f64 as core::str::FromStr>::from_str, stub_parse_f64)]
+fn c20_json_number_4() {
+    let buf: [u8; 4] = kani::any();
+    kani::assume(buf[0] < 0x80 && buf[1] < 0x80 && buf[2] < 0x80 && buf[3] < 0x80);
+    let text = core::str::from_utf8(&buf).unwrap();
+    let mut lexer = Lexer { line: 0, column: 0, rem: text };
+    let got = lexer.lex_number();
+    let want = ref_json_number(&buf);
+    match got {
+        Ok(Some(x)) => {
+            assert!(x.is_finite(), "a parsed JSON number is finite");
+            assert!(want.is_ok() && want.unwrap() > 0, "accepted only well-formed numbers");
+            assert!(buf.len() - lexer.rem.len() == want.unwrap(), "consumed the longest number token");
+            kani::cover!(want.unwrap() == 4 && buf[0] == b'-', "4-byte negative number");
+        }
+        Ok(None) => {
+            assert!(want == Ok(0), "no number at this position");
+            assert!(lexer.rem.len() == 4, "nothing consumed");
+        }
+        Err(e) => {
             kani::cover!(want.is_err(), "malformed number rejected");
             kani::cover!(want.is_ok(), "overflow rejected");
             assert!(want != Ok(0), "an error needs at least a number-like prefix");
